@@ -1,7 +1,8 @@
 ---------------------------- MODULE MC_AsyncService ----------------------------
 EXTENDS AsyncService, Json
 CONSTANTS MaxClock, MaxWire, MaxMsgs
-VARIABLE nmsg
+VARIABLES nmsg,
+          badFrom    \* ghost (HTTP): requests whose OWN exchange delivered an unauthenticated or unparsable PDU
 
 Ids == 1..(Cardinality(Reqs) + 1)           \* one id more than requests: an id nobody owns
 (* requests are submitted in order; the id is the next unused one (the code's ids are replayed from the real run) *)
@@ -16,18 +17,22 @@ RespMsgs == {m \in Msgs : m.k = "resp"}
 Bodies == {<<>>} \cup {<<m>> : m \in Msgs} \cup {<<m1, m2>> : m1 \in RespMsgs, m2 \in {m \in RespMsgs : m.status = 0 /\ m.fits}}
 Outcomes(r) == {[x |-> r, res |-> k, msgs |-> <<>>, junk |-> FALSE] : k \in {"curlerr", "httperr"}}
                \cup {[x |-> r, res |-> "body", msgs |-> b, junk |-> j] : b \in Bodies, j \in BOOLEAN}
-MCInit == Init /\ nmsg = 0
-MCNext == \/ (NextReq # 0 /\ Add(NextReq, FreshId) /\ UNCHANGED nmsg)
-          \/ (\E h \in Reqs \cup {0} : Run(h) /\ UNCHANGED nmsg)
-          \/ (\E m \in Msgs : nmsg < MaxMsgs /\ Len(wire) < MaxWire /\ ServerWrites(m) /\ nmsg' = nmsg + 1)
-          \/ (\E r \in Reqs : \E e \in Outcomes(r) : nmsg < MaxMsgs /\ ExchangeCompletes(e) /\ nmsg' = nmsg + 1)
-          \/ (~Http /\ \E how \in {"closed", "reset"} : PeerEnds(how) /\ UNCHANGED nmsg)
-          \/ (~Http /\ \E m \in {"ready", "notready", "hup", "err"} : SetPoll(m) /\ UNCHANGED nmsg)
-          \/ (~Http /\ \E m \in {"ok", "fail"} : SetOpen(m) /\ UNCHANGED nmsg)
-          \/ (clock < MaxClock /\ Tick(1) /\ UNCHANGED nmsg)
-MCSpec == MCInit /\ [][MCNext]_<<vars, nmsg>>
+MCInit == Init /\ nmsg = 0 /\ badFrom = {}
+BadBody(e) == \E i \in DOMAIN e.msgs : e.msgs[i].k \in {"badmac", "garbage"}
+MCNext == \/ (NextReq # 0 /\ Add(NextReq, FreshId) /\ UNCHANGED <<nmsg, badFrom>>)
+          \/ (\E h \in Reqs \cup {0} : Run(h) /\ UNCHANGED <<nmsg, badFrom>>)
+          \/ (\E m \in Msgs : nmsg < MaxMsgs /\ Len(wire) < MaxWire /\ ServerWrites(m) /\ nmsg' = nmsg + 1 /\ UNCHANGED badFrom)
+          \/ (\E r \in Reqs : \E e \in Outcomes(r) : nmsg < MaxMsgs /\ ExchangeCompletes(e) /\ nmsg' = nmsg + 1
+                                                       /\ badFrom' = IF BadBody(e) THEN badFrom \cup {r} ELSE badFrom)
+          \/ (~Http /\ \E how \in {"closed", "reset"} : PeerEnds(how) /\ UNCHANGED <<nmsg, badFrom>>)
+          \/ (~Http /\ \E m \in {"ready", "notready", "hup", "err"} : SetPoll(m) /\ UNCHANGED <<nmsg, badFrom>>)
+          \/ (~Http /\ \E m \in {"ok", "fail"} : SetOpen(m) /\ UNCHANGED <<nmsg, badFrom>>)
+          \/ (clock < MaxClock /\ Tick(1) /\ UNCHANGED <<nmsg, badFrom>>)
+MCSpec == MCInit /\ [][MCNext]_<<vars, nmsg, badFrom>>
+(* STRICT: expected to be violated when Http (finding F-C13-4) *)
+StrictOwnExchange == CauseOnOwnExchange(badFrom)
 (* the observation variable does not distinguish states *)
-View == <<st, id, addT, sndT, cause, sigok, sendq, respq, wire, conn, connT, rStart, rCount, peer, pollm, openm, clock, usedIds, ret, arrived, early, xdone, nmsg>>
+View == <<st, id, addT, sndT, cause, sigok, sendq, respq, wire, conn, connT, rStart, rCount, peer, pollm, openm, clock, usedIds, ret, arrived, early, xdone, nmsg, badFrom>>
 Dbg1 == ~(st[2] = "resp")
 Dbg3 == ~(st[2] = "sent")
 Dbg4 == ~(st[2] = "queued")
